@@ -76,23 +76,23 @@ Definition literal_tok (t : ctok) : bool :=
 Inductive pos :=
 | PWhereEq | PWhereIn | PWhereBetween | PWhereLike | PSelectFunc | PWhereFunc | PSelectCase | PSelectVal | PSelectAlias
 | PInsert | PSet | POnDup | POnConflict | PDefault | PHaving | PJoinOn | PSubWhere | PFromSub | PTupleEq | PArrayElem
-| PArith | PCaseWhen | PCaseElse | PWithOne | PWithTwo | PArithSub.
+| PArith | PCaseWhen | PCaseElse | PWithOne | PWithTwo | PArithSub | PDeleteWhere | PReplaceRow | PInsertSelect.
 
 Definition fa : term := TField "a" None None.
 Definition tbl (n : string) : option tref := Some {| tname := n; tschema := []; talias := None |}.
 
 Definition plug (p : pos) (v : term) : term :=
   match p with
-  | PWhereEq | PHaving => TBasic CEq fa v None                                   (* Field("a") == v *)
+  | PWhereEq | PHaving | PDeleteWhere => TBasic CEq fa v None                                   (* Field("a") == v *)
   | PWhereIn => TIn fa (TTuple (TCons v (TCons (TValI 1 None) TNil)) None) false None   (* Field("a").isin([v, 1]) *)
   | PWhereBetween => TBetween fa v (TValS "z" None) None                         (* Field("a").between(v, "z") *)
   | PWhereLike => TBasic CLike fa v None                                         (* Field("a").like(v) *)
   | PSelectFunc => TFunc "F" (TCons v (TCons (TValI 2 None) TNil)) None None     (* Function("F", v, 2) *)
   | PWhereFunc => TBasic CEq (TFunc "G" (TCons fa (TCons v TNil)) None None) (TValI 1 None) None
   | PSelectCase => TCase (WCons (TBasic CEq fa (TValI 1 None) None) v WNil) (OSome v) None   (* Case().when(a==1, v).else_(v) *)
-  | PSelectVal | PSelectAlias | PInsert | PSet | POnDup | POnConflict | PDefault => v
+  | PSelectVal | PSelectAlias | PInsert | PReplaceRow | PSet | POnDup | POnConflict | PDefault => v
   | PJoinOn => TBasic CEq (TField "a" (tbl "t") None) v None                     (* t.a == v *)
-  | PSubWhere | PFromSub => TBasic CEq (TField "y" (tbl "u") None) v None        (* u.y == v inside a sub-query *)
+  | PSubWhere | PFromSub | PInsertSelect => TBasic CEq (TField "y" (tbl "u") None) v None        (* u.y == v inside a sub-query *)
   | PTupleEq => TBasic CEq (TTuple (TCons fa (TCons (TField "b" None None) TNil)) None)
                            (TTuple (TCons v (TCons (TValI 1 None) TNil)) None) None
   | PArrayElem => TArray (TCons v (TCons (TValS "b" None) TNil)) None            (* Array(v, "b") *)
@@ -105,7 +105,7 @@ Definition plug (p : pos) (v : term) : term :=
 
 Definition pos_wrap (p : pos) : wrapping :=
   match p with
-  | PSelectVal | PInsert => WConstCls
+  | PSelectVal | PInsert | PReplaceRow => WConstCls
   | PSet => WCls
   | PSelectAlias | POnDup | POnConflict | PDefault => WPlain
   | _ => WConst
@@ -123,7 +123,7 @@ Definition with_flags (c : ctx) (wa' wn' subq' : bool) : ctx :=
 Definition pos_ctx (p : pos) (k : qclass) : ctx :=
   let c := class_ctx k in
   match p with
-  | PWhereEq | PWhereIn | PWhereBetween | PWhereLike | PWhereFunc | PTupleEq | PSubWhere | PFromSub | PWithOne | PWithTwo | PInsert =>
+  | PWhereEq | PWhereIn | PWhereBetween | PWhereLike | PWhereFunc | PTupleEq | PSubWhere | PFromSub | PWithOne | PWithTwo | PInsert | PReplaceRow | PDeleteWhere | PInsertSelect =>
       with_flags c false false true
   | PSelectFunc | PSelectCase | PSelectVal | PSelectAlias | PArrayElem | PArith | PArithSub | PCaseWhen | PCaseElse =>
       with_flags c true false true
